@@ -34,6 +34,12 @@ T = {
     'C04-m2': ('C04', 'align caches its evaluated Nest per column (key ignores the indentation): the same align object evaluated at one column under two indentations - nested aligns inside a group that ends up broken, a sub-document shared under two nests, or a second layout run of the object - gets the stale offset', {'C04': 'VIOLATION with input and history (missed at first: every document was a fresh tree; added align-heavy documents, documents SHARING one sub-document object, and replays that record the earlier layouts of the same object)', 'C06': 'VIOLATION no-failing-input-found (engine correspondence)', 'C05': 'not detected (classic algebra only)', 'C03': 'not detected (printers build no align)'}),
     'C05-m2': ('C05', 'both fitting predicates answer True at a not-yet-laid-out sibling group (BREAK mode): a group that fits flat followed on the same line by a group that does not, whose leading text is long, overflows', {'C05': 'VIOLATION with input', 'C04': 'VIOLATION (engine correspondence and oracle)'}),
     'C06-m2': ('C06', 'smart_fitting_predicate gives up when chars_left <= 0 and the stack is non-empty: a nested group whose line is EXACTLY as wide as the available width is broken although it fits', {'C06': 'VIOLATION with input', 'C05': 'VIOLATION no-failing-input-found (engine correspondence)'}),
+    'C03-m2': ('C03', 'the "cannot be split" fallback of pretty_str returns the bare literal for every type: a str/bytes SUBCLASS instance that does not fit the rest of its line but is not split (something precedes it on the line, or the 10-character floor applies) loses its constructor at narrow widths only', {'C03': 'VIOLATION with input', 'C08': 'VIOLATION with input'}),
+    'C07-m2': ('C07', 'pretty_timedelta splits off whole 365-day years before building attrs: a timedelta whose day count is a non-zero exact multiple of 365 loses the years (days=365 prints timedelta())', {'C07': 'VIOLATION with input (eval oracle and Stdlib model)'}),
+    'C08-m2': ('C08', 'short string documents memoised on (value, strategy, indent) without the class: a str/bytes subclass instance printed after an EQUAL plain value in the same process (or the reverse) takes the other one\'s document', {'C08': 'VIOLATION with input', 'C19': 'VIOLATION with history'}),
+    'C09-m2': ('C09', 'the dangling comma of a commented sole tuple element is emitted only in the end-of-line comment layout: with the comment above the element (multi-line / long comment, narrow width) the 1-tuple prints as a parenthesised expression', {'C09': 'VIOLATION with input', 'C03': 'VIOLATION with input'}),
+    'C10-m2': ('C10', 'python_to_sdocs forwards max_seq_len only when it is not None and PrettyContext defaults it to 1000: max_seq_len=None truncates containers of more than 1000 elements', {'C10': 'VIOLATION with input (missed at first: no container was longer than 6; added containers of 999/1000/1001/1500 elements x limits None, len-1, len, len+1, 1000, 10**9, sys.maxsize)'}),
+    'C11-m2': ('C11', 'pretty_call_alt hugs a sole argument by isinstance instead of exact type: a call whose only positional argument is a list/dict/tuple SUBCLASS instance does not consume a level, everything beneath is cut one level too late', {'C11': 'VIOLATION with input (missed at first: random trees rarely put a subclass container as the sole argument of a call above the cut; added the sole-argument family: native / subclass / commented / call-wrapped containers as sole argument, with a keyword or second argument beside it, depths 0..6)'}),
 }
 
 
